@@ -167,6 +167,7 @@ type vKeySnap struct {
 	waited      bool
 	holds       []vHoldSnap
 	waits       []string
+	waitLong    []bool // per live waiter: its timeout entry sits in the long table
 	data        []byte
 	exists      bool
 }
@@ -204,6 +205,7 @@ func (v *vSeq) keySnap(key int) vKeySnap {
 			for _, l := range node {
 				if l != nil && !l.timeouted && l.command != nil {
 					ks.waits = append(ks.waits, fmt.Sprintf("%d.%d.%d", vInt16(l.command.LockId), vInt16(l.command.RequestId), l.timeoutTime))
+					ks.waitLong = append(ks.waitLong, l.longWaitIndex > 0)
 				}
 			}
 		}
@@ -295,6 +297,7 @@ type vGen struct {
 	profile int
 	hint    func(key int) (vHoldSnap, int64, bool) // a live hold of the key and the current time (long-lived profile)
 	statf   func(string)
+	whint   func(key int) (int, bool, bool) // LockId of a live queued request of the key, whether it is in the long table
 }
 
 func (g *vGen) lockOp() vOp {
@@ -367,6 +370,16 @@ func (g *vGen) unlockOp() vOp {
 	if g.profile != 0 {
 		o.lockId = 1 + r.Intn(g.nids*3)
 	}
+	if g.profile == 3 && g.whint != nil && r.Intn(100) < 55 {
+		// long-lived profile: cancel a queued request (preferably one whose timeout entry has migrated to the long table)
+		if id, long, ok := g.whint(o.key); ok {
+			o.lockId = id
+			o.flag = 2
+			if g.statf != nil {
+				g.statf(fmt.Sprintf("cancel-aimed-at-waiter(long=%v)", long))
+			}
+		}
+	}
 	return o
 }
 
@@ -431,7 +444,7 @@ func (x *vRun) body(n int) {
 		}
 		if x.g.profile == 3 && c < 97 {
 			// long-lived profile: few unlocks, long stretches of time
-			c = vPick(r, []int{10, 60, 80, 95}, []int{38, 7, 50, 5})
+			c = vPick(r, []int{10, 60, 80, 95}, []int{36, 12, 47, 5})
 		}
 		switch {
 		case c < 48:
@@ -506,6 +519,23 @@ func vEngineRun(t *testing.T, mode string, profileOf func(i int) int, opsPer int
 		}
 		x.mon = vNewMonitor(out, x)
 		g.statf = out.stat
+		g.whint = func(key int) (int, bool, bool) {
+			ks := v.keySnap(key)
+			if len(ks.waits) == 0 {
+				return 0, false, false
+			}
+			pick := r.Intn(len(ks.waits))
+			for i, l := range ks.waitLong {
+				if l && r.Intn(3) != 0 {
+					pick = i
+					break
+				}
+			}
+			var id, rq int
+			var tt int64
+			fmt.Sscanf(strings.ReplaceAll(ks.waits[pick], ".", " "), "%d %d %d", &id, &rq, &tt)
+			return id, ks.waitLong[pick], true
+		}
 		g.hint = func(key int) (vHoldSnap, int64, bool) {
 			ks := v.keySnap(key)
 			if len(ks.holds) == 0 {
